@@ -1,11 +1,14 @@
 ------------------------- MODULE AuthStrategy_Trace -------------------------
 (* code -> spec for C44.  One trace = one call of the real                      *)
 (* AuthStrategy.authenticate() on a strategy whose get_sources() yields stubs:   *)
-(*   prog   = outcome kind of each stub ("ok" or an exception class name)         *)
+(*   prog   = outcome kind of each stub (a kind of returned value, see Returns, or  *)
+(*            an exception class name)                                              *)
 (*   events = [src |-> k] for every stub.authenticate() entered, in order         *)
 (*   final  = [status |-> "returned" | "raised" | "propagated",                   *)
 (*             result |-> entries [src, kind, of] of the AuthResult (identity     *)
-(*             look-ups of the source / returned object / exception instance)]    *)
+(*             look-ups of the source / returned object / exception instance;     *)
+(*             kind = "ret" only if the entry holds the very object the source     *)
+(*             returned, unchanged)]                                               *)
 (* The trace spec replays the recorded calls on the design spec's variables and   *)
 (* evaluates the design spec's clause operators; it is total (never blocks).      *)
 EXTENDS AuthStrategy, Json, IOUtils, TLCExt
@@ -25,7 +28,7 @@ TCall == /\ l <= NEv
          /\ LET s == T.events[l].src IN
               /\ calls' = Append(calls, s)
               /\ i' = s
-              /\ succeeded' = (s \in 1..Len(prog) /\ prog[s] = "ok")
+              /\ succeeded' = (s \in 1..Len(prog) /\ Succeeds(prog[s]))
               /\ bad' = bad \cup CallClauses(prog, calls, s)
          /\ pc' = "record" /\ l' = l + 1
          /\ UNCHANGED <<tid, prog, result, status>>
